@@ -331,7 +331,7 @@ func c15Enumerate(maxLen int) [][]string {
 }
 
 func runC15(r *fw.Run) {
-	hs := c15Enumerate(r.Pick(5, 7))
+	hs := c15Enumerate(r.Pick(5, 10))
 	var hists []*c15Hist
 	for i, s := range hs {
 		hists = append(hists, &c15Hist{Steps: s, Socketpair: i%3 == 0, Reuse: i%4 == 0, Prelude: i%6 == 1})
@@ -339,7 +339,7 @@ func runC15(r *fw.Run) {
 			hists = append(hists, &c15Hist{Steps: s, NoTimeout: true, Socketpair: i%2 == 0, Reuse: i%10 == 0})
 		}
 	}
-	r.Count("exhaustive_history_len", int64(r.Pick(5, 7)))
+	r.Count("exhaustive_history_len", int64(r.Pick(5, 10)))
 	fw.Parallel(16, len(hists), func(w, i int) {
 		h := hists[i]
 		if r.ViolationCount() > 12 {
@@ -363,7 +363,7 @@ func runC15(r *fw.Run) {
 		}
 	})
 	// (B) real clock
-	n := r.Pick(1, 6)
+	n := r.Pick(1, 12)
 	for k := 0; k < n; k++ {
 		for _, cf := range []struct {
 			tr     string
@@ -657,7 +657,7 @@ func replayC15(r *fw.Run, raw json.RawMessage) {
 func init() {
 	fw.Register(&fw.Engine{
 		ID: "C15", Level: "exploration",
-		Rule: "(A) every valid history over {connect, call, close, abort mid-frame, accept-timeout expiry} up to length 5 (quick) / 7 (thorough) on a controlled listener whose deadline is virtual: SetDeadline(non-zero) arms it and the harness decides when an armed deadline expires by making the parked Accept return a timeout error. Oracle on event order: an expiry injected while a connection is verifiably open (a round trip on it just completed) must be followed by the loop re-arming the deadline and re-entering Accept, the connection still being served; an expiry injected once every connection has been closed by the service and the active count has reached 0 must make the serving call return ServiceTimeoutError with Close called on the listener; entering Accept unarmed although a timeout was requested is reported (it could never time out); every history ends with an idle expiry. A fifth of the histories run with timeout 0: the listener must never be armed, the serving call must not return by itself, Shutdown returns nil. (B) real clock, T = 150 ms, unix and TCP, Listen and Bind+DoListen, one-sided: with one connection open for 2.5 T a second client must still be served; after the last close the call must return ServiceTimeoutError within 200 T; then a dial must fail, the unix socket file must be gone, and a new service must serve the same address at once. non-trivial = history of >= 2 steps; distinct by hash of the history. A quarter of the histories afterwards serve the same object again the other way round (untimed after timed must never arm, timed after untimed must arm before every Accept); a sixth are preceded by a period that is ended by Shutdown while two connections are still open. Real clock also: 26 connections closing at the same instant; a connection made at 0.6 T must postpone the stop to at least T after the client began to dial (exact, one-sided).",
+		Rule: "(A) every valid history over {connect, call, close, abort mid-frame, accept-timeout expiry} up to length 5 (quick) / 10 (thorough) on a controlled listener whose deadline is virtual: SetDeadline(non-zero) arms it and the harness decides when an armed deadline expires by making the parked Accept return a timeout error. Oracle on event order: an expiry injected while a connection is verifiably open (a round trip on it just completed) must be followed by the loop re-arming the deadline and re-entering Accept, the connection still being served; an expiry injected once every connection has been closed by the service and the active count has reached 0 must make the serving call return ServiceTimeoutError with Close called on the listener; entering Accept unarmed although a timeout was requested is reported (it could never time out); every history ends with an idle expiry. A fifth of the histories run with timeout 0: the listener must never be armed, the serving call must not return by itself, Shutdown returns nil. (B) real clock, T = 150 ms, unix and TCP, Listen and Bind+DoListen, one-sided: with one connection open for 2.5 T a second client must still be served; after the last close the call must return ServiceTimeoutError within 200 T; then a dial must fail, the unix socket file must be gone, and a new service must serve the same address at once. non-trivial = history of >= 2 steps; distinct by hash of the history. A quarter of the histories afterwards serve the same object again the other way round (untimed after timed must never arm, timed after untimed must arm before every Accept); a sixth are preceded by a period that is ended by Shutdown while two connections are still open. Real clock also: 26 connections closing at the same instant; a connection made at 0.6 T must postpone the stop to at least T after the client began to dial (exact, one-sided).",
 		Assumptions: []string{"bounded progress: 10 s for the accept loop to take its next step", "real-clock part: only margins that hold for a correct service under any load are asserted"},
 		Run:         runC15, Replay: replayC15, CrashIsViolation: true, MinEvals: 100,
 		QuickTimeout: 15 * time.Minute, ThoroughTimeout: 60 * time.Minute,
